@@ -246,6 +246,9 @@ func (ts *taskState) pickVer(key string, n int64) string {
 const (
 	FarExpiry2500 = int64(1)<<62 + 1
 	FarExpiry9999 = int64(1)<<62 + 2
+	// an instant far beyond year 9999 (what a millisecond timestamp gives when it is taken
+	// for seconds): no time formatting or protobuf timestamp validity rule covers it
+	FarExpiryBeyond = int64(1)<<62 + 3
 )
 
 func expOf(d int64, now time.Time) *time.Time {
@@ -258,6 +261,9 @@ func expOf(d int64, now time.Time) *time.Time {
 		return &t
 	case FarExpiry9999:
 		t := time.Date(9999, 12, 31, 23, 59, 59, 0, time.UTC)
+		return &t
+	case FarExpiryBeyond:
+		t := time.Unix(1700000000000, 0)
 		return &t
 	}
 	t := now.Add(time.Duration(d))
@@ -467,6 +473,10 @@ func (w *world) doOp(ctx context.Context, ts *taskState, op sim.Op, i int) {
 			w.record(ts, "getmany", op.S, "", "", o, call)
 		}
 	case "put":
+		if op.V == "@ver" {
+			// an application that keeps a back-pointer to the version it replaces inside the value
+			op.V = "prev=" + ts.pickVer(op.S, 0)
+		}
 		exp := expOf(op.D, t0)
 		r, err := ts.cl.Put(ctx, kvs.Record{Key: op.S, Value: []byte(op.V), ExpiresAt: exp})
 		o = recOut(r, err)
@@ -528,6 +538,9 @@ func (w *world) doOp(ctx context.Context, ts *taskState, op sim.Op, i int) {
 	case "cas":
 		exp := expOf(op.D, t0)
 		ver := ts.pickVer(op.S, op.N)
+		if op.V == "@ver" {
+			op.V = "prev=" + ver
+		}
 		r, err := ts.cl.CasByVersion(ctx, kvs.Record{Key: op.S, Value: []byte(op.V), Version: ver, ExpiresAt: exp})
 		o = outcome{Err: classify(err)}
 		t1 := time.Now()
